@@ -253,13 +253,15 @@ def default_body_factory(ctx):
         elif fault == "P_max":
             kw["P_max"] = 400 * [u.km, vel, u.one, u.rad, u.kg, 1 / u.day][case["choice"] % 6]
         elif fault == "s":
-            kw["s"] = 0.5 * [u.km, u.day, u.one, u.rad, vel / u.day, u.kg][case["choice"] % 6]
-        if fault == "sigma_v_count" and poly >= 2:
-            sig = sig[:-1]
+            # (also with the value 0: a quantity of the wrong physical type stays wrong when its value is zero)
+            kw["s"] = [0.5, 0.0][case["which"] % 2] * [u.km, u.day, u.one, u.rad, vel / u.day, u.kg][case["choice"] % 6]
+        if fault == "sigma_v_count":
+            # one width too few (poly_trend >= 2) or one too many
+            sig = sig[:-1] if (poly >= 2 and case["choice"] % 2 == 0) else sig + [1e-5 * vel / u.day ** poly]
         if case["as"] == "dict" and fault != "sigma_v_count":
             kw["sigma_v"] = {"v%d" % i: sg for i, sg in enumerate(sig)}
         else:
-            kw["sigma_v"] = sig[0] if (poly == 1 and len(sig) == 1) else sig
+            kw["sigma_v"] = sig[0] if (poly == 1 and len(sig) == 1 and case["choice"] % 3) else sig
         exc, prior = None, None
         try:
             with pm.Model() as model:
@@ -267,7 +269,7 @@ def default_body_factory(ctx):
                 prior = tj.JokerPrior.default(v0_offsets=offs or None, model=model, **kw)
         except Exception as e:
             exc = e
-        invalid = fault not in ("none",) and not (fault == "sigma_v_count" and poly < 2)
+        invalid = fault not in ("none",)
         if not invalid:
             if exc is not None:
                 raise Violation("JokerPrior.default rejected valid arguments: %s: %s" % (type(exc).__name__, str(exc)[:200]), kw=repr(kw)[:300])
